@@ -65,13 +65,14 @@ class VectorLocals(object):
     early = False
     pat = 'VectorLocals'
 
-    def __init__(self, params):
+    def __init__(self, params, need_local=True):
         self.params = list(params)
+        self.need_local = need_local      # the dense reader has no std::vector local, only the parameter
 
     def apply(self, text, log, generic=False):
         decl = re.compile(r'\bstd_vector<\s*(Idx|Val)\s*>\s+(\w+)\s*;')
         names = self.params + [m.group(2) for m in decl.finditer(text)]
-        if len(names) == len(self.params):
+        if self.need_local and len(names) == len(self.params):
             raise ExtractError('VectorLocals: no std::vector local found')
         text, nd = decl.subn(lambda m: 'vec_%s %s = vec_%s_new();' % (m.group(1)[0], m.group(2), m.group(1)[0]), text)
         alt = '|'.join(re.escape(n) for n in names)
@@ -106,6 +107,15 @@ VEC_RULES = [
 MM_SPARSE = Cut(MM, r'std::tuple<size_t, size_t> operator\(\)\(\s*std::vector<Idx> &ptr,\s*std::vector<Idx> &col,\s*'
                     r'std::vector<Val> &val,\s*ptrdiff_t row_beg = -1,\s*ptrdiff_t row_end = -1\s*\)\s*(?=\{)',
                 rules=STREAM_RULES + VEC_RULES + [VectorLocals(['ptr', 'col', 'val'])])
+
+# dense (array) reader: the same stream expressions; the size line holds two numbers, a data line ONE value token
+DENSE_RULES = [r for r in STREAM_RULES if 'mm_extract_sizes(' not in r.repl and 'mm_extract_idx2(' not in r.repl] + [
+    Rule(r'\bis >> (\w+) >> (\w+)', r'mm_extract_sizes2(&is, self, &\1, &\2)', 1, why='A-mmstream: size line of an array file (rows, columns)'),
+    Rule(r'\b(\w+)\.resize\(([^;]+)\);', r'VEC_RESIZE(\1, \2);', 1, why='std::vector::resize'),
+] + [r for r in VEC_RULES if r.count is None]
+MM_DENSE = Cut(MM, r'std::tuple<size_t, size_t> operator\(\)\(\s*std::vector<Val> &val,\s*ptrdiff_t row_beg = -1,\s*'
+                   r'ptrdiff_t row_end = -1\s*\)\s*(?=\{)',
+               rules=DENSE_RULES + [VectorLocals(['val'], need_local=False)])
 
 READ_VALUE = Cut(MM, r'typename std::enable_if<!amgcl::is_complex<T>::value, T>::type\s*read_value\(std::istream &s\)\s*(?=\{)',
                  rules=[
@@ -233,20 +243,36 @@ static _Bool mm_extract_idx2(mm_iss *is, const mm_reader *R, Idx *a, Idx *b)
   *b = R->ej[k]; is->tok = 2;
   return 1;
 }
+/* array (dense) files, units mm_dense_*: the size line parses as "n m" (hdr_ok) or it does not; data line k is ONE value token
+ * ev[k] that parses iff entok[k] >= 1 (ei / ej are not part of the line); line number j*n + i holds entry (i, j) (column major) */
+#ifdef MM_DENSE
+#define MM_VAL_POS 0             /* position of the value token in a data line             */
+#else
+#define MM_VAL_POS 2
+#endif
+/* is >> n >> m  (ptrdiff_t, ptrdiff_t) in boolean context */
+static _Bool mm_extract_sizes2(mm_iss *is, const mm_reader *R, ptrdiff_t *n, ptrdiff_t *m)
+{
+  MODEL(is->line == -1 && is->tok == 0, "two sizes are extracted from the start of the size line only");
+  if (is->fail) return 0;
+  if (!R->hdr_ok) { is->fail = 1; return 0; }
+  *n = R->hn; *m = R->hm; is->tok = 2;
+  return 1;
+}
 /* s >> x  (value) in boolean context; the token is left in s->last */
 static _Bool mm_extract_val(mm_iss *s, const mm_reader *R)
 {
-  MODEL(s->line >= 0 && s->line < ZMAX && (s->tok == 2 || s->fail), "a value is extracted after the two indices of a data line only");
+  MODEL(s->line >= 0 && s->line < ZMAX && (s->tok == MM_VAL_POS || s->fail), "a value is extracted after the two indices of a data line (array file: at the start of a data line) only");
   if (s->fail) return 0;
   const ptrdiff_t k = s->line;
-  if (R->entok[k] < 3) { s->last = 0; s->fail = 1; return 0; }
-  s->last = R->ev[k]; s->tok = 3;
+  if (R->entok[k] < MM_VAL_POS + 1) { s->last = 0; s->fail = 1; return 0; }
+  s->last = R->ev[k]; s->tok = MM_VAL_POS + 1;
   return 1;
 }
 #define MM_EXTRACT_VAL(s, R, x) (mm_extract_val(s, R) ? ((x) = (s)->last, (_Bool)1) : (_Bool)0)
 '''
 
-MM_BODY = r'''
+MM_BODY_RV = r'''
 /* the traits of the instantiation: symbolic constants of the run */
 _Bool g_val_is_complex, g_val_is_integral;
 #define VAL_IS_COMPLEX g_val_is_complex
@@ -261,7 +287,9 @@ static Val mm_read_value(mm_iss *s, mm_reader *self)
   typedef Val T;
 /*@CUT:read_value@*/
 }
+'''
 
+MM_BODY = MM_BODY_RV + r'''
 /* detail::sort_row; the slice precondition is CHECKED at every call (its own accesses: unit io_sort_row) */
 static vec_I *g_sr_col;
 static vec_V *g_sr_val;
@@ -561,4 +589,171 @@ mm_strict = _mk(
     thorough=None,
     bound='entry streams with -2 <= n <= 2, m <= 2, nnz <= 2, index tokens in [-1, 4]')
 
-UNITS = [mm_sparse, mm_strict]
+
+# ------------------------------------------------------------------------------ dense (array) reader
+MM_BODY_DENSE = MM_BODY_RV + r'''
+#undef CXC_THROW_RET
+#define CXC_THROW_RET mm_mk_result(0, 0)
+static mm_result f_mm_read_dense(mm_reader *self, vec_V *val_p, ptrdiff_t row_beg, ptrdiff_t row_end)
+{
+#define val (*val_p)
+#define _sparse (self->sparse)
+#define _complex (self->complex_)
+#define _integer (self->integer_)
+/*@CUT:body@*/
+#undef val
+#undef _sparse
+#undef _complex
+#undef _integer
+}
+'''
+
+H_MM_DENSE = r'''
+/* number of the data line that holds entry (i, j) of an n-row array file: column major */
+#define LINE_OF(i, j, n) ((size_t)(j) * (size_t)(n) + (size_t)(i))
+void h_mm_dense(void)
+{
+  mm_reader F;                                  /* the file behind a constructed reader: symbolic */
+  F.sparse = nondet_uchar() & 1; F.symmetric = nondet_uchar() & 1; F.complex_ = nondet_uchar() & 1; F.integer_ = nondet_uchar() & 1;
+  F.hdr_ok = nondet_uchar() & 1; g_val_is_complex = nondet_uchar() & 1; g_val_is_integral = nondet_uchar() & 1;
+  /* the bound */
+  REQUIRES(F.hn >= N_LO && F.hn <= NMAX && F.hm >= N_LO && F.hm <= NMAX && F.nlines <= ZMAX);
+  for (size_t k = 0; k < ZMAX; ++k) REQUIRES(F.entok[k] <= 1);
+  /* what the constructor guarantees: a data type is exactly one of real / complex / integer; `line` is the size line */
+  REQUIRES(!(F.complex_ && F.integer_));
+  REQUIRES(!(g_val_is_complex && g_val_is_integral));
+  F.next = 0; F.cur = -1;
+  F.hnnz = 0;                                   /* the size line of an array file has no third number */
+  /* caller's part: the requested range is not inverted (row_end < 0 stands for n; a negative n of a damaged size line counts as 0) */
+  ptrdiff_t row_beg, row_end;
+  REQUIRES(row_beg < 0 || (row_end < 0 ? row_beg <= (F.hn < 0 ? 0 : F.hn) : row_beg <= row_end));
+  mirror_stream(&F); MIRROR_RANGE(row_beg, row_end);
+  mm_reader F1 = F, F2 = F;                     /* two readers on the same file */
+
+  /* ---- full read; the caller's vector: any size, any content */
+  vec_V val1; val1.p = (Val *)malloc(sizeof(Val) * VCAP); REQUIRES(val1.len <= VCAP);
+  g_thrown = 0;
+  mm_result r1 = f_mm_read_dense(&F1, &val1, -1, -1);
+  const int t1 = g_thrown;
+  /* ---- read of [row_beg, row_end) */
+  vec_V val2; val2.p = (Val *)malloc(sizeof(Val) * VCAP); REQUIRES(val2.len <= VCAP);
+  g_thrown = 0;
+  mm_result r2 = f_mm_read_dense(&F2, &val2, row_beg, row_end);
+  const int t2 = g_thrown;
+
+  ENSURES(!g_cap_exceeded && t1 != 3 && t2 != 3, "bound artefact: no element beyond the modelled vector capacity is touched");
+  ENSURES(stream_same(&F1, &F) && stream_same(&F2, &F), "frame: the file is not modified");
+
+  /* ---- (2) when the reader throws */
+  const ptrdiff_t N = F.hn, M = F.hm;
+  const ptrdiff_t rb = row_beg < 0 ? 0 : row_beg, re = row_end < 0 ? N : row_end;
+  const _Bool kind_ok = !F.sparse && F.complex_ == g_val_is_complex && F.integer_ == g_val_is_integral;
+  const _Bool head_ok = kind_ok && F.hdr_ok;
+  const _Bool sizes_ok = N >= 0 && M >= 0;
+  const size_t need = sizes_ok ? (size_t)N * (size_t)M : 0;      /* data lines of a complete file */
+  /* every present data line of the matrix / of the requested rows parses */
+  _Bool full_ok = 1, range_ok = 1;
+  for (size_t j = 0; j < NMAX; ++j) for (size_t i = 0; i < NMAX; ++i) if (sizes_ok && (ptrdiff_t)i < N && (ptrdiff_t)j < M) {
+    const size_t k = LINE_OF(i, j, N);
+    if (k < F.nlines && k < ZMAX && F.entok[k] < 1) { full_ok = 0; if ((ptrdiff_t)i >= rb && (ptrdiff_t)i < re) range_ok = 0; }
+  }
+  ENSURES(!F.sparse || (t1 && t2), "a file that is not a dense (array) matrix makes the reader throw");
+  ENSURES(F.sparse || kind_ok || (t1 && t2), "a wrong value kind (real / complex / integer) makes the reader throw");
+  ENSURES(!kind_ok || F.hdr_ok || (t1 && t2), "a size line that does not parse makes the reader throw");
+  ENSURES(!head_ok || re <= N || t2, "a row range beyond n makes the reader throw");
+  ENSURES(!head_ok || sizes_ok || (t1 && t2), "a negative row or column count in the size line makes the reader throw (no structurally invalid result is returned)");
+  ENSURES(!head_ok || !sizes_ok || F.nlines >= need || (t1 && t2), "a file truncated before its last data line makes the reader throw (full read and every row range)");
+  ENSURES(!head_ok || !sizes_ok || full_ok || t1, "a data line that does not parse makes the full read throw");
+  ENSURES(!head_ok || !sizes_ok || range_ok || t2, "a data line of a requested row that does not parse makes the range read throw");
+  if (head_ok && sizes_ok && F.nlines >= need) {
+    ENSURES(!full_ok || !t1, "a well-formed file is read without exception (full read)");
+    ENSURES(!range_ok || re > N || !t2, "a row range inside [0, n] whose data lines all parse is read without exception (lines of other rows are skipped unparsed)");
+  }
+
+  /* ---- (1) results */
+  if (head_ok && sizes_ok) {
+    if (!t1) {
+      ENSURES(r1.rows == (size_t)N && r1.cols == (size_t)M && val1.len == need, "full read: returns (n, m) and n*m values");
+      _Bool tok = 1;
+      if (val1.len == need)
+        for (size_t i = 0; i < NMAX; ++i) for (size_t j = 0; j < NMAX; ++j) if ((ptrdiff_t)i < N && (ptrdiff_t)j < M) {
+          if (val1.p[i * (size_t)M + j] != F.ev[LINE_OF(i, j, N)]) tok = 0;
+        }
+      ENSURES(tok, "full read: val[i*m + j] (row major) is the value token of data line j*n + i (the file is column major)");
+    }
+    if (!t2 && re <= N) {
+      const size_t rows = (size_t)(re - rb);
+      ENSURES(r2.rows == rows && r2.cols == (size_t)M, "range read: returns (row_end - row_beg, m)");
+      ENSURES(val2.len == rows * (size_t)M, "range read: structurally valid result, val.size() = rows * m");
+      if (val2.len == rows * (size_t)M) {
+        _Bool tok = 1, same = 1;
+        for (size_t i = 0; i < NMAX; ++i) for (size_t j = 0; j < NMAX; ++j) if ((ptrdiff_t)i >= rb && (ptrdiff_t)i < re && (ptrdiff_t)j < M) {
+          const Val got = val2.p[(i - (size_t)rb) * (size_t)M + j];
+          if (got != F.ev[LINE_OF(i, j, N)]) tok = 0;
+          if (!t1 && val1.len == need && got != val1.p[i * (size_t)M + j]) same = 0;
+        }
+        ENSURES(same, "range read == slice of the full read: val2[(i - row_beg)*m + j] == val1[i*m + j] for every row of the range and every column");
+        ENSURES(tok, "range read: val[(i - row_beg)*m + j] is the value token of data line j*n + i");
+      }
+    }
+  }
+  CANARY("harness.end");
+}
+'''
+
+
+def _mk_dense(name, desc, extra_defs, variants, thorough, bound, timeout=300):
+    u = Unit(
+        name=name, props=['C19', 'C10'],
+        functions=['io::mm_reader::operator()<Val>(val, row_beg, row_end) [dense array reader]',
+                   'io::mm_reader::read_value<T> (real overload)'],
+        desc=desc,
+        cuts={'read_value': READ_VALUE, 'body': MM_DENSE},
+        template='#define MM_DENSE 1\n' + extra_defs + MM_PRELUDE + MM_STREAM + MM_BODY_DENSE + MM_SPEC + H_MM_DENSE,
+        entry='h_mm_dense', mode='unwound', unwind='max(2*ZMAX+1, NMAX+2)+1', model='none', obj_bits=12,
+        defines={'CXC_COL_T': 'int', 'CXC_PTR_T': 'int', 'VAL_T': 'unsigned short'},
+        variants=variants, thorough_variants=thorough,
+        bound_text=bound,
+        assumptions=[a for a in A_MM if not a.startswith(('A-omp', 'A-sortrow'))] +
+                    ['A-mmstream (array files): the size line parses as "n m" or it does not; data line k is one value token that parses or not; '
+                     'data line j*n + i holds entry (i, j)'],
+        replay='mmreader', timeout=timeout,
+        witness=['w_sparse', 'w_sym', 'w_complex', 'w_integer', 'w_valc', 'w_vali', 'w_hdr_ok', 'w_n', 'w_m', 'w_nnz', 'w_nlines',
+                 'w_ei', 'w_ej', 'w_ev', 'w_entok', 'w_row_beg_lo', 'w_row_beg_hi', 'w_row_end_lo', 'w_row_end_hi'],
+        not_decided=['text parsing itself (number syntax, white space, comment lines, locale) and the decimal round trip of values (A-mmstream)',
+                     'banner / size-line parsing of the constructor', 'complex overload of read_value (two tokens per value)',
+                     'symmetric array storage (the dense reader ignores the storage flag: the file is read as a full n x m array)',
+                     'more than one value token on a data line', 'the writers',
+                     'an inverted row range (row_beg > row_end): caller error, required not to occur'],
+    )
+    u.replay_asan = True
+    u.drop_checks = []
+    # read_value<T>: the `std::is_same<T, char>` branch (8-bit integers read through an int) does not exist in this instantiation
+    u.cover_exempt = r'read_value\.1\b'
+    return u
+
+
+mm_dense = _mk_dense(
+    'mm_dense_read',
+    'MatrixMarket dense (array) reader with abstracted text parsing: range read == slice of the full read (row-major result of a '
+    'column-major file, value by value); throws exactly on a coordinate file / wrong kind / bad size line / range beyond n / '
+    'truncation / unparsable data line of a requested row; every vector access in bounds; the file is not modified',
+    '#define N_LO 0\n',
+    variants=[{'NMAX': 2, 'ZMAX': 5}],
+    thorough=[{'NMAX': 3, 'ZMAX': 10}],
+    bound='every array file with 0 <= n, m <= 2 (thorough: 3), 0 .. n*m+1 data lines present (truncated, complete, one trailing line), '
+          'any value tokens, any per-line parse failure, any banner flags / value kind, every caller row range that is not inverted (64-bit symbolic)')
+
+# Damaged size line: the same contract with NEGATIVE sizes in the size line allowed (std::vector::resize of a negative product =
+# std::length_error in the vector model).  Gated (C19_DENSE_STRICT=1): see the report of this unit.
+mm_dense_strict = _mk_dense(
+    'mm_dense_strict',
+    'MatrixMarket dense (array) reader, damaged size line: the contract of mm_dense_read with negative sizes allowed: a negative row or column count makes the reader throw',
+    '#define N_LO (-2)\n',
+    variants=[{'NMAX': 2, 'ZMAX': 5}],
+    thorough=None,
+    bound='array files with -2 <= n, m <= 2, up to 5 data lines')
+
+UNITS = [mm_sparse, mm_strict, mm_dense]
+if os.environ.get('C19_DENSE_STRICT'):
+    UNITS.append(mm_dense_strict)
